@@ -4,42 +4,53 @@
 From TV Require Import Lib.GoNum Lib.Res Model.Unicode Model.Lang Spec.Unicode Proofs.Unicode Proofs.Decomp.
 From TV Require Import Gen.HangulCode Model.UnicodeShape.
 
-Ltac Zify.zify_post_hook ::= Z.div_mod_to_equations.
 
+From Coq Require Import Lia ZifyBool.
+(* sint32 as an opaque value with its defining equation: linear arithmetic then decides everything *)
+Lemma sint32_spec x : exists k, sint32 x = x + 4294967296 * k /\ -2147483648 <= sint32 x < 2147483648.
+Proof.
+  unfold sint32, wrap32. cbv zeta.
+  pose proof (Z.mod_pos_bound x 4294967296 ltac:(lia)) as B.
+  pose proof (Z.div_mod x 4294967296 ltac:(lia)) as D.
+  destruct (x mod 4294967296 <? 2147483648) eqn:E.
+  - exists (- (x / 4294967296)). apply Z.ltb_lt in E. lia.
+  - exists (- (x / 4294967296) - 1). apply Z.ltb_ge in E. lia.
+Qed.
+
+Ltac Zify.zify_post_hook ::= Z.quot_rem_to_equations; Z.div_mod_to_equations.
+
+Ltac no_inner t := lazymatch t with context[sint32 _] => fail | _ => idtac end.
+Ltac abstract_one t :=
+  let k := fresh "k" in let v := fresh "v" in let E := fresh "E" in let R := fresh "R" in
+  destruct (sint32_spec t) as (k & E & R); set (v := sint32 t) in *; clearbody v.
+Ltac abstract_sint32 :=
+  repeat match goal with
+  | |- context[sint32 ?t] => no_inner t; abstract_one t
+  | H : context[sint32 ?t] |- _ => no_inner t; abstract_one t
+  end.
+Ltac split_ifs :=
+  repeat match goal with
+  | |- context[if ?c then _ else _] => let H := fresh "C" in destruct c eqn:H
+  end.
+Ltac leaf := first [ reflexivity | exfalso; lia | repeat f_equal; lia ].
+Ltac code_eq := cbv zeta; abstract_sint32; split_ifs; leaf.
+
+(* Both equalities are decided by one shape-independent tactic (unfold, abstract every int32 wrap by its defining
+   equation, split every conditional of both sides, linear arithmetic with quotient/remainder equations), so that a
+   behaviour-preserving rewrite of the Go functions (renamed locals, named sub-conditions, reordered conjuncts)
+   does not break them while a changed bound or operator does. *)
 Lemma decompose_hangul_src_eq ab : is_rune ab -> decompose_hangul_src ab = decompose_hangul ab.
 Proof.
-  intro Hr. unfold decompose_hangul_src, decompose_hangul.
+  intro Hr. unfold is_rune in Hr. unfold decompose_hangul_src, decompose_hangul.
   unfold HangulSBase, HangulSCount, HangulTCount, HangulNCount, HangulLBase, HangulVBase, HangulTBase.
-  set (si := sint32 (ab - 44032)). cbv zeta.
-  destruct ((si <? 0) || (si >=? 11172)) eqn:E; [reflexivity|].
-  apply orb_false_iff in E as [E1 E2]. apply Z.ltb_ge in E1. rewrite Z.geb_leb in E2. apply Z.leb_gt in E2.
-  rewrite !Z.rem_mod_nonneg, !Z.quot_div_nonneg by lia.
-  destruct (negb (si mod 28 =? 0)).
-  - rewrite (sint32_id (si / 28 * 28)) by lia. rewrite !sint32_id by lia. reflexivity.
-  - rewrite !sint32_id by lia. reflexivity.
+  code_eq.
 Qed.
 
 Lemma compose_hangul_src_eq a b : is_rune a -> is_rune b -> compose_hangul_src a b = compose_hangul a b.
 Proof.
   intros Ha Hb. unfold is_rune in *. unfold compose_hangul_src, compose_hangul.
   unfold HangulSBase, HangulSCount, HangulTCount, HangulNCount, HangulLBase, HangulLCount, HangulVBase, HangulVCount, HangulTBase.
-  change (44032 + 11172) with 55204. change (4519 + 28) with 4547. change (4352 + 19) with 4371. change (4449 + 21) with 4470.
-  rewrite !Z.geb_leb, !Z.gtb_ltb.
-  destruct ((44032 <=? a) && (a <? 55204) && (4519 <? b) && (b <? 4547)) eqn:G1.
-  - apply andb_prop in G1 as [G1 B2]. apply andb_prop in G1 as [G1 B1]. apply andb_prop in G1 as [A1 A2].
-    apply Z.leb_le in A1. apply Z.ltb_lt in A2, B1, B2.
-    rewrite (sint32_id (a - 44032)) by lia. cbn [andb].
-    destruct (Z.rem (a - 44032) 28 =? 0); [|cbn [andb]].
-    + rewrite (sint32_id (b - 4519)) by lia. rewrite sint32_id by lia. reflexivity.
-    + replace (4352 <=? a) with true by (symmetry; apply Z.leb_le; lia).
-      replace (a <? 4371) with false by (symmetry; apply Z.ltb_ge; lia). reflexivity.
-  - cbn [andb].
-    destruct ((4352 <=? a) && (a <? 4371) && (4449 <=? b) && (b <? 4470)) eqn:G2; [|reflexivity].
-    apply andb_prop in G2 as [G2 B2]. apply andb_prop in G2 as [G2 B1]. apply andb_prop in G2 as [A1 A2].
-    apply Z.leb_le in A1, B1. apply Z.ltb_lt in A2, B2. cbv zeta.
-    rewrite (sint32_id (a - 4352)) by lia. rewrite (sint32_id (b - 4449)) by lia.
-    rewrite (sint32_id ((a - 4352) * 588)) by lia. rewrite (sint32_id ((b - 4449) * 28)) by lia.
-    rewrite (sint32_id (44032 + (a - 4352) * 588)) by lia. rewrite sint32_id by lia. reflexivity.
+  code_eq.
 Qed.
 
 Lemma decompose_code_eq ab : is_rune ab -> decompose_code ab = decompose ab.
